@@ -1,14 +1,21 @@
 import Sm9.Proofs.Identity
 import Sm9.Proofs.Pow
 import Sm9.Proofs.GtOrder
+import Sm9.Proofs.MillerNeg
+import Sm9.Proofs.MillerFrobEquivariant
 /-!
 # C01 — Pairing is bilinear, non-degenerate and trivial on the identity
 
 What is a theorem here: identity inputs (in *any* representation x, y, 0) give one in all
-three entry points; `Gt::pow` is exponentiation.  **Not proved: bilinearity** — it is a
+three entry points; `Gt::pow` is exponentiation.  **Not proved: bilinearity in general** — it is a
 theorem about the Tate/ate pairing that needs divisor theory absent from Mathlib (see
-DESIGN.md §6 C01); the check decides it on sampled inputs (`law.bilin`, `law.additive`),
-labelled as tests in the evidence.  The pairing of the generators is not one (kernel
+DESIGN.md §6 C01); the check decides it on sampled inputs (`law.bilin`, `law.additive`, `law.additive2`),
+labelled as tests in the evidence.  **Proved fragments of bilinearity** (for all valid `P ≠ O`, all `Q ≠ O` of
+`⟨P2⟩`, any representatives, all three entry points): the scalars `−1` on either side
+(`e(−P,Q) = e(P,−Q) = e(P,Q)⁻¹`, `e(−P,−Q) = e(P,Q)`: the Miller function of the negated argument is the
+`q⁶`-conjugate up to sign, and conjugation inverts after the final exponentiation) and the scalar `q` on the
+right (`e(P,[q]Q) = e(P,Q)^q`: the Miller function is equivariant under the `q`-Frobenius, which acts on `⟨P2⟩`
+as multiplication by `q`), and every pairing value has order dividing `r`.  The pairing of the generators is not one (kernel
 evaluation of the model) and every pairing value g satisfies g^(r−1)·g = 1 (C17's
 final-exponentiation theorem).
 -/
@@ -41,6 +48,66 @@ theorem pairing_value_order_fe (f g : Fq12) (h : f.final_exponentiation = .ok (s
 theorem generators_nondegenerate :
     Api.pairing G.one G.one ≠ .ok Fq12.one ∧ Api.fast_pairing G.one G.one ≠ .ok Fq12.one := by
   decide +kernel
+
+/-! ## proved fragments of bilinearity: the scalars −1 (either side) and q (right) -/
+section fragments
+variable (P : G1) (Q : G2) (hPz : P.z ≠ 0) (hPv : G1.Valid P) (hQz : Q.z ≠ 0) (hQv : G2.Valid Q)
+  (k : Nat) (hk : G2.toAff Q = k • G2.toAff (G.one : G2))
+include hPz hPv hQz hQv hk
+
+/-- `e(−P, Q) · e(P, Q) = 1` — bilinearity with `a = r−1` on the left, `fast_pairing` -/
+theorem fast_pairing_neg_left :
+    ∃ g g', Api.fast_pairing P Q = .ok g ∧ Api.fast_pairing P.neg Q = .ok g' ∧ g' * g = 1 :=
+  Miller.fast_pairing_neg_left P Q hPz hPv hQz hQv k hk
+/-- `e(P, −Q) · e(P, Q) = 1` — bilinearity with `b = r−1` on the right, `fast_pairing` -/
+theorem fast_pairing_neg_right :
+    ∃ g g', Api.fast_pairing P Q = .ok g ∧ Api.fast_pairing P Q.neg = .ok g' ∧ g' * g = 1 :=
+  Miller.fast_pairing_neg_right P Q hPz hPv hQz hQv k hk
+theorem fast_pairing_neg_neg : Api.fast_pairing P.neg Q.neg = Api.fast_pairing P Q :=
+  Miller.fast_pairing_neg_neg P Q hPz hPv hQz hQv k hk
+/-- the same for `pairing()` (the signed-digit numerator/denominator loop) -/
+theorem pairing_neg_left : ∃ g g', Api.pairing P Q = .ok g ∧ Api.pairing P.neg Q = .ok g' ∧ g' * g = 1 :=
+  Miller.pairing_neg_left P Q hPz hPv hQz hQv k hk
+theorem pairing_neg_right : ∃ g g', Api.pairing P Q = .ok g ∧ Api.pairing P Q.neg = .ok g' ∧ g' * g = 1 :=
+  Miller.pairing_neg_right P Q hPz hPv hQz hQv k hk
+theorem pairing_neg_neg : Api.pairing P.neg Q.neg = Api.pairing P Q :=
+  Miller.pairing_neg_neg P Q hPz hPv hQz hQv k hk
+/-- the same for the prepared API -/
+theorem prepared_pairing_neg_left :
+    ∃ g g', (do let pr ← Api.prepare Q; Api.preparedPairing pr P) = .ok g ∧
+      (do let pr ← Api.prepare Q; Api.preparedPairing pr P.neg) = .ok g' ∧ g' * g = 1 :=
+  Miller.prepared_pairing_neg_left P Q hPz hPv hQz hQv k hk
+theorem prepared_pairing_neg_right :
+    ∃ g g', (do let pr ← Api.prepare Q; Api.preparedPairing pr P) = .ok g ∧
+      (do let pr ← Api.prepare Q.neg; Api.preparedPairing pr P) = .ok g' ∧ g' * g = 1 :=
+  Miller.prepared_pairing_neg_right P Q hPz hPv hQz hQv k hk
+
+/-- `e(P, [q]Q) = e(P, Q)^q` — bilinearity with the scalar `b = q mod r` on the right (`Q.mul qFr` is the model's
+    own scalar multiplication), all three entry points; `g^q = g^(q mod r)` because `g^r = 1` -/
+theorem fast_pairing_mul_q :
+    ∃ g, Api.fast_pairing P Q = .ok g ∧ g ^ r = 1 ∧ Api.fast_pairing P (Q.mul Miller.qFr) = .ok (g ^ Miller.qFr.val) :=
+  Miller.api_fast_pairing_mul_qFr P Q hPz hPv hQz hQv k hk
+theorem pairing_mul_q :
+    ∃ g, Api.pairing P Q = .ok g ∧ g ^ r = 1 ∧ Api.pairing P (Q.mul Miller.qFr) = .ok (g ^ Miller.qFr.val) :=
+  Miller.api_pairing_mul_qFr P Q hPz hPv hQz hQv k hk
+theorem prepared_pairing_mul_q :
+    ∃ g, (do let pr ← Api.prepare Q; Api.preparedPairing pr P) = .ok g ∧ g ^ r = 1 ∧
+      (do let pr ← Api.prepare (Q.mul Miller.qFr); Api.preparedPairing pr P) = .ok (g ^ Miller.qFr.val) :=
+  Miller.api_prepared_pairing_mul_qFr P Q hPz hPv hQz hQv k hk
+/-- the twist Frobenius the code itself computes (`q_power_frobenius`) raises every entry point to the `q`-th power -/
+theorem pairings_q_power_frobenius :
+    ∃ Q', G2m.q_power_frobenius Q (Fq2.new pi1 0) = some Q' ∧
+      (∃ g, Api.fast_pairing P Q = .ok g ∧ Api.fast_pairing P Q' = .ok (g ^ q)) ∧
+      (∃ g, (do let pr ← Api.prepare Q; Api.preparedPairing pr P) = .ok g ∧
+        (do let pr ← Api.prepare Q'; Api.preparedPairing pr P) = .ok (g ^ q)) ∧
+      (∃ g, Api.pairing P Q = .ok g ∧ Api.pairing P Q' = .ok (g ^ q)) :=
+  Miller.api_pairings_q_power_frobenius P Q hPz hPv hQz hQv k hk
+/-- every value of `fast_pairing` / `pairing` on this domain has order dividing `r` -/
+theorem fast_pairing_order (g : Fq12) (hg : Api.fast_pairing P Q = .ok g) : g ^ r = 1 :=
+  Miller.api_fast_pairing_order P Q hPz hPv hQz hQv k hk g hg
+theorem pairing_order (g : Fq12) (hg : Api.pairing P Q = .ok g) : g ^ r = 1 :=
+  Miller.api_pairing_order P Q hPz hPv hQz hQv k hk g hg
+end fragments
 
 /-- non-vacuity: a non-canonical identity, as left behind by P − P -/
 example : ({ x := Fq.ofNat 4, y := Fq.ofNat (q - 8), z := 0 } : G1).z = 0 := rfl
